@@ -203,7 +203,11 @@ func (t *transport) handle() {
 				// the session, since they could be messages that the client no
 				// longer cares for. When we figure this out, replace this
 				// panic with something more sensible.
-				panic(fmt.Sprintf("unknown tag received: %v", b))
+				// A reply that no outstanding call is waiting for (an unknown
+				// or repeated tag, or a call already given up on) must not
+				// take the whole client down: drop it.
+				log.Printf("p9p: dropping reply with unknown tag: %v", b)
+				continue
 			}
 
 			// BUG(stevvooe): Must detect duplicate tag and ensure that we are
